@@ -12,7 +12,7 @@ from harness.c05 import changes_of, UTC0, DATES, SCRIPTS_T1, SCRIPTS_T9, SCRIPTS
 PROPERTY = "C06"
 LEVEL = "model_checking"
 BOUNDS = {"hours_per_series": "N=3 (T9/T5: 2)", "skeletons": "T1, T5, T9, T3 (two time zones)", "change_lists": "as C05",
-          "dates": "first hour (equality with the really-updated model), interior/last (no earlier hour, pairing), "
+          "dates": "first hour (equality with the really-updated model), interior/last and an interior date on a half hour (no earlier hour, pairing, not rejected for its date), "
                    "before/after/naive (rejected)"}
 ASSUMPTIONS = ["'really applying the same changes' = the same change list through ModelingUpdate without a date on a "
                "second system built from the same inputs in the same path",
@@ -52,7 +52,13 @@ def h_sim_equal(ctx, skeleton, script, date, n=3, args=None, tz=None):
             raise
         ctx.require(False, f"simulation dated '{date}' is rejected with ValueError", "it was accepted")
         return
-    sim = ModelingUpdate(changes, when)
+    try:
+        sim = ModelingUpdate(changes, when)
+    except ValueError as e:
+        # the new values may legitimately be refused (capacity...), a date inside the modelled period may not
+        ctx.require("modeling period" not in str(e), f"simulation dated '{date}' (inside the modelled period) is not rejected for its date",
+                    str(e)[:200])
+        raise
     # pairing
     vtr, rv = sim.values_to_recompute, sim.recomputed_values
     ctx.require(len(vtr) == len(rv), "as many recomputed values as values to recompute", f"{len(vtr)} vs {len(rv)}")
@@ -116,6 +122,11 @@ def plan(tier, seed):
     for sc in SCRIPTS_T1[:6]:
         for d in ("interior", "last"):
             p.append(("sim_equal", dict(skeleton="T1", script=sc, date=d)))
+    # a date that is not on a full hour: no hour before it (the hour it falls in has already begun)
+    for sc in SCRIPTS_T1[:3]:
+        p.append(("sim_equal", dict(skeleton="T1", script=sc, date="interior_half")))
+    for sc in (SCRIPTS_T9[0], SCRIPTS_T9[3]):
+        p.append(("sim_equal", dict(skeleton="T9", script=sc, date="interior_half", n=3)))
     for d in ("before", "after", "naive"):
         p.append(("sim_equal", dict(skeleton="T1", script=SCRIPTS_T1[0], date=d)))
         p.append(("sim_equal", dict(skeleton="T9", script=SCRIPTS_T9[0], date=d, n=2)))
